@@ -1011,10 +1011,9 @@ def _init_contract(case):
   return contract(
     "ufo2ft.outlineCompiler:BaseOutlineCompiler.__init__",
     name="composition-" + case,
-    # PARKED (not part of the registered check): every postcondition below is discharged in all three cases, but the two directions of
-    # "the mapping function's rejection condition, read after '.notdef' synthesis == the pre-state condition" (hints at L133, needed for
-    # `raises`) are not: four nested quantifiers whose bodies differ by a position-wise rewriting (O[i] -> ORDER_PRE[i], unicodes now ->
-    # unicodes in the pre-state); no solver of the portfolio finds the instantiation, with or without canon_binders / bridging hints.
+    # The `raises` iff needs the two implications "rejection condition of the mapping function, read after '.notdef' synthesis  <=>  the
+    # pre-state condition of this contract": hints at L133 in the engine's `same-witnesses:` form, with canon_binders=True (the three
+    # textual copies of each condition become identical terms) and `order_term` (one term for the official order).
     props=["C03"] if _INIT_READY else [],
     params={"self": Ref("NotdefCompiler"), "font": Ref("Font"), "glyphSet": Opt(Ref("NotdefGlyphSet")), "glyphOrder": Opt(List(STR)), "tables": Const(None),
             "notdefGlyph": Opt(Ref("StubGlyph")), "ftConfig": Const(None), "compilingVFDefaultSource": Const(True)},
